@@ -13,8 +13,21 @@ def evKey : Event → List (Option Nat)
   | .err id _ => [some id]
   | .redef _ _ => []
   | .panic _ => [none]
+  | .skipped id => [some id]
 
-def useIds (us : List Use) : List Nat := us.map (·.id)
+mutual
+/-- the identifier occurrences of an expression, in text order -/
+def exprIds : Expr → List Nat
+  | .use u => [u.id]
+  | .group es => exprsIds es
+  | .call u args => u.id :: exprsIds args
+  | .raw _ args => exprsIds args
+def exprsIds : List Expr → List Nat
+  | [] => []
+  | e :: es => exprIds e ++ exprsIds es
+end
+
+def useIds (es : List Expr) : List Nat := exprsIds es
 
 mutual
 /-- identifier occurrences of a statement in the order the resolver handles them (the item
@@ -26,6 +39,7 @@ def stmtIds : Stmt → List Nat
   | .func _ _ _ params body => params.map (·.1) ++ ((itemDecls body).map (·.2.1) ++ stmtsIds body)
   | .const vars => vars.flatMap fun v => useIds v.init
   | .script b => (itemDecls b).map (·.2.1) ++ stmtsIds b
+  | .funcDecl _ _ _ params => params.map (·.1)
 def stmtsIds : List Stmt → List Nat
   | [] => []
   | s :: ss => stmtIds s ++ stmtsIds ss
@@ -148,14 +162,85 @@ theorem specUse_key (g : Globals) (lang : Option Lang) (env : Env) (hc : EnvClea
       | enumConst e n => rfl
       | builtin n => rfl
 
-theorem specUses_key (g : Globals) (lang : Option Lang) (env : Env) (hc : EnvClean env) (us : List Use) :
-    (us.map (specUse g lang env)).flatMap evKey = (useIds us).map some := by
-  induction us with
-  | nil => rfl
-  | cons u us ih =>
-    simp only [List.map_cons, List.flatMap_cons, useIds] at *
-    rw [specUse_key g lang env hc u, ih]
-    rfl
+mutual
+theorem skipExpr_key : ∀ (e : Expr), (skipExpr e).flatMap evKey = (exprIds e).map some
+  | .use u => by simp [skipExpr, exprIds, evKey]
+  | .group es => by simp only [skipExpr, exprIds]; exact skipExprs_key es
+  | .call u args => by
+    simp only [skipExpr, exprIds, List.flatMap_cons, List.map_cons, evKey, List.singleton_append]
+    rw [skipExprs_key args]
+  | .raw _ args => by simp only [skipExpr, exprIds]; exact skipExprs_key args
+theorem skipExprs_key : ∀ (es : List Expr), (skipExprs es).flatMap evKey = (exprsIds es).map some
+  | [] => by simp [skipExprs, exprsIds]
+  | e :: es => by
+    simp only [skipExprs, exprsIds, List.flatMap_append, List.map_append]
+    rw [skipExpr_key e, skipExprs_key es]
+end
+
+/-- Every identifier of an expression gets exactly one primary event, in text order: a looked-up
+one is resolved or diagnosed, one in an argument beyond the callee's parameters is `skipped`. -/
+theorem walk_key (g : Globals) (lang : Option Lang) (look : Use → Event)
+    (hl : ∀ u, evKey (look u) = [some u.id]) :
+    (∀ (e : Expr) (c : Option Name), (walkExpr g lang look c e).flatMap evKey = (exprIds e).map some) ∧
+    (∀ (es : List Expr) (c : Option Name), (walkExprs g lang look c es).flatMap evKey = (exprsIds es).map some) ∧
+    (∀ (es : List Expr) (c : Option Name) (sig : Option Sig),
+      (walkArgs g lang look c sig es).flatMap evKey = (exprsIds es).map some) := by
+  have key : ∀ n : Nat,
+      (∀ (e : Expr), sizeOf e < n → ∀ c, (walkExpr g lang look c e).flatMap evKey = (exprIds e).map some) ∧
+      (∀ (es : List Expr), sizeOf es < n → ∀ c, (walkExprs g lang look c es).flatMap evKey = (exprsIds es).map some) ∧
+      (∀ (es : List Expr), sizeOf es < n → ∀ c sig,
+        (walkArgs g lang look c sig es).flatMap evKey = (exprsIds es).map some) := by
+    intro n
+    induction n with
+    | zero => exact ⟨fun _ h => absurd h (Nat.not_lt_zero _), fun _ h => absurd h (Nat.not_lt_zero _),
+        fun _ h => absurd h (Nat.not_lt_zero _)⟩
+    | succ n ih =>
+      obtain ⟨ih1, ih2, ih3⟩ := ih
+      refine ⟨?_, ?_, ?_⟩
+      · intro e he c
+        cases e with
+        | use u => simp [walkExpr, exprIds, hl]
+        | group es =>
+          simp only [walkExpr, exprIds]
+          exact ih2 es (by simp at he; omega) c
+        | call u args =>
+          simp only [walkExpr, exprIds, List.flatMap_cons, List.map_cons, hl, List.singleton_append]
+          rw [ih3 args (by simp at he; omega)]
+        | raw op args =>
+          simp only [walkExpr, exprIds]
+          exact ih3 args (by simp at he; omega) c _
+      · intro es he c
+        cases es with
+        | nil => simp [walkExprs, exprsIds]
+        | cons e es =>
+          simp only [walkExprs, exprsIds, List.flatMap_append, List.map_append]
+          rw [ih1 e (by simp at he; omega) c, ih2 es (by simp at he; omega) c]
+      · intro es he c sig
+        cases es with
+        | nil => cases sig <;> simp [walkArgs, exprsIds]
+        | cons e es =>
+          have h1 := ih1 e (by simp at he; omega)
+          have h3 := ih3 es (by simp at he; omega)
+          cases sig with
+          | none =>
+            simp only [walkArgs, exprsIds, List.flatMap_append, List.map_append]
+            rw [h1 c, h3 c none]
+          | some ps =>
+            cases ps with
+            | nil =>
+              simp only [walkArgs, exprsIds, List.flatMap_append, List.map_append]
+              rw [skipExpr_key e, h3 c (some [])]
+            | cons pc ps =>
+              simp only [walkArgs, exprsIds, List.flatMap_append, List.map_append]
+              rw [h1 pc, h3 c (some ps)]
+  exact ⟨fun e c => (key (sizeOf e + 1)).1 e (Nat.lt_succ_self _) c,
+    fun es c => (key (sizeOf es + 1)).2.1 es (Nat.lt_succ_self _) c,
+    fun es c sig => (key (sizeOf es + 1)).2.2 es (Nat.lt_succ_self _) c sig⟩
+
+theorem specUses_key (g : Globals) (lang : Option Lang) (env : Env) (hc : EnvClean env) (c : Option Name)
+    (es : List Expr) :
+    (walkExprs g lang (specUse g lang env) c es).flatMap evKey = (useIds es).map some :=
+  (walk_key g lang (specUse g lang env) (fun u => specUse_key g lang env hc u)).2.1 es c
 
 theorem declEvents_key (noun : Ns → Noun) : ∀ (ds : List (Ns × Nat × Name)) (seen : Ns → Name → Bool),
     (declEvents noun seen ds).flatMap evKey = (ds.map (·.2.1)).map some := by
@@ -197,7 +282,7 @@ theorem specDeclVars_key (g : Globals) (lang : Option Lang) : ∀ (vars : List D
     obtain ⟨h1, h2⟩ := ih _ (fun n => decide (n = v.name) || here n) hc'
     simp only [specDeclVars, List.flatMap_cons, List.flatMap_append, List.map_append, evKey]
     refine ⟨?_, h2⟩
-    rw [h1, specUses_key g lang env hc]
+    rw [h1, specUses_key g lang env hc none]
     split <;> simp [evKey]
 
 def KeyStmtsOK (g : Globals) (ss : List Stmt) : Prop :=
@@ -216,20 +301,20 @@ theorem specBlock_key (g : Globals) (b : List Stmt) (h : KeyStmtsOK g b) (lang :
   rw [declEvents_key, h lang _ _ (envClean_withItems env hc _)]
 
 theorem flatMap_key_const (g : Globals) (env : Env) (hc : EnvClean env) (vars : List DeclVar) :
-    (vars.flatMap fun v => v.init.map (specUse g none env)).flatMap evKey =
+    (vars.flatMap fun v => walkExprs g none (specUse g none env) none v.init).flatMap evKey =
       (vars.flatMap fun v => useIds v.init).map some := by
   induction vars with
   | nil => rfl
   | cons v vs ih =>
     simp only [List.flatMap_cons, List.flatMap_append, List.map_append]
-    rw [ih, specUses_key g none env hc]
+    rw [ih, specUses_key g none env hc none]
 
 mutual
 theorem specStmt_key (g : Globals) : ∀ (s : Stmt), KeyStmtOK g s
   | .expr us => by
     intro lang env here hc
     simp only [specStmt, stmtIds]
-    exact ⟨specUses_key g lang env hc us, hc⟩
+    exact ⟨specUses_key g lang env hc none us, hc⟩
   | .decl vars => by
     intro lang env here hc
     simp only [specStmt, stmtIds]
@@ -253,6 +338,13 @@ theorem specStmt_key (g : Globals) : ∀ (s : Stmt), KeyStmtOK g s
     intro lang env here hc
     simp only [specStmt, stmtIds, ← specBlock_def]
     exact ⟨specBlock_key g b (specStmts_key g b) _ env hc, hc⟩
+  | .funcDecl id name qual params => by
+    intro lang env here hc
+    simp only [specStmt, stmtIds]
+    refine ⟨?_, hc⟩
+    induction params with
+    | nil => rfl
+    | cons p ps ih => simp only [List.map_cons, List.flatMap_cons, evKey, List.singleton_append, ih]
 theorem specStmts_key (g : Globals) : ∀ (ss : List Stmt), KeyStmtsOK g ss
   | [] => by intro lang env here _; simp [specStmts, stmtsIds]
   | s :: ss => by
@@ -284,6 +376,14 @@ theorem applyEvents_ok : ∀ (evs : List Event) (ids : List Nat) (t : Table),
       | nil => simp at hk
       | cons i is => simp at hk
     | err id e' =>
+      simp only [List.flatMap_cons, evKey, List.singleton_append] at hk
+      cases ids with
+      | nil => simp at hk
+      | cons i is =>
+        simp only [List.map_cons, List.cons.injEq, Option.some.injEq] at hk
+        simp only [applyEvents]
+        exact ih is t hk.2 (List.nodup_cons.mp hn).2 (fun j hj => ht j (by simp [hj]))
+    | skipped id =>
       simp only [List.flatMap_cons, evKey, List.singleton_append] at hk
       cases ids with
       | nil => simp at hk
@@ -338,6 +438,7 @@ theorem applyEvents_frame : ∀ (evs : List Event) (t t' : Table), applyEvents t
     cases e with
     | redef id noun => simp only [applyEvents] at h; exact ih t t' h i hi.2
     | err id e' => simp only [applyEvents] at h; exact ih t t' h i hi.2
+    | skipped id => simp only [applyEvents] at h; exact ih t t' h i hi.2
     | panic s => simp [applyEvents] at h
     | selfRes id =>
       have hne : i ≠ id := fun e => hi.1 (by simp [evKey, e])
@@ -379,7 +480,8 @@ theorem applyEvents_table : ∀ (evs : List Event) (ids : List Nat) (t t' : Tabl
     applyEvents t evs = .ok t' →
     (∀ id d, Event.res id d ∈ evs → t'.lookup id = some d) ∧
     (∀ id, Event.selfRes id ∈ evs → t'.lookup id = some (.decl id)) ∧
-    (∀ id e, Event.err id e ∈ evs → t'.lookup id = none) := by
+    (∀ id e, Event.err id e ∈ evs → t'.lookup id = none) ∧
+    (∀ id, Event.skipped id ∈ evs → t'.lookup id = none) := by
   intro evs
   induction evs with
   | nil => intro ids t t' _ _ _ _; simp
@@ -389,9 +491,9 @@ theorem applyEvents_table : ∀ (evs : List Event) (ids : List Nat) (t t' : Tabl
     | redef id noun =>
       simp only [List.flatMap_cons, evKey, List.nil_append] at hk
       simp only [applyEvents] at h
-      obtain ⟨h1, h2, h3⟩ := ih ids t t' hk hn ht h
+      obtain ⟨h1, h2, h3, h4⟩ := ih ids t t' hk hn ht h
       simp only [List.mem_cons, reduceCtorEq, false_or]
-      exact ⟨h1, h2, h3⟩
+      exact ⟨h1, h2, h3, h4⟩
     | panic s => simp [applyEvents] at h
     | err id e' =>
       simp only [List.flatMap_cons, evKey, List.singleton_append] at hk
@@ -403,14 +505,32 @@ theorem applyEvents_table : ∀ (evs : List Event) (ids : List Nat) (t t' : Tabl
         subst hi
         have hnd := List.nodup_cons.mp hn
         simp only [applyEvents] at h
-        obtain ⟨h1, h2, h3⟩ := ih is t t' hk' hnd.2 (fun j hj => ht j (by simp [hj])) h
+        obtain ⟨h1, h2, h3, h4⟩ := ih is t t' hk' hnd.2 (fun j hj => ht j (by simp [hj])) h
         have hfr := applyEvents_frame es t t' h id (by rw [hk']; simpa using hnd.1)
         simp only [List.mem_cons, reduceCtorEq, false_or, Event.err.injEq]
-        refine ⟨h1, h2, ?_⟩
+        refine ⟨h1, h2, ?_, h4⟩
         intro id' e'' hm
         rcases hm with ⟨rfl, _⟩ | hm
         · rw [hfr]; exact ht _ (by simp)
         · exact h3 id' e'' hm
+    | skipped id =>
+      simp only [List.flatMap_cons, evKey, List.singleton_append] at hk
+      cases ids with
+      | nil => simp at hk
+      | cons i is =>
+        simp only [List.map_cons, List.cons.injEq, Option.some.injEq] at hk
+        obtain ⟨hi, hk'⟩ := hk
+        subst hi
+        have hnd := List.nodup_cons.mp hn
+        simp only [applyEvents] at h
+        obtain ⟨h1, h2, h3, h4⟩ := ih is t t' hk' hnd.2 (fun j hj => ht j (by simp [hj])) h
+        have hfr := applyEvents_frame es t t' h id (by rw [hk']; simpa using hnd.1)
+        simp only [List.mem_cons, reduceCtorEq, false_or, Event.skipped.injEq]
+        refine ⟨h1, h2, h3, ?_⟩
+        intro id' hm
+        rcases hm with rfl | hm
+        · rw [hfr]; exact ht _ (by simp)
+        · exact h4 id' hm
     | selfRes id =>
       simp only [List.flatMap_cons, evKey, List.singleton_append] at hk
       cases ids with
@@ -428,10 +548,10 @@ theorem applyEvents_table : ∀ (evs : List Event) (ids : List Nat) (t t' : Tabl
           have : (j == id) = false := by simp [hne]
           simp only [List.lookup, this]
           exact ht j (by simp [hj])
-        obtain ⟨h1, h2, h3⟩ := ih is _ t' hk' hnd.2 ht1 h
+        obtain ⟨h1, h2, h3, h4⟩ := ih is _ t' hk' hnd.2 ht1 h
         have hfr := applyEvents_frame es _ t' h id (by rw [hk']; simpa using hnd.1)
         simp only [List.mem_cons, reduceCtorEq, false_or, Event.selfRes.injEq]
-        refine ⟨h1, ?_, h3⟩
+        refine ⟨h1, ?_, h3, h4⟩
         intro id' hm
         rcases hm with rfl | hm
         · rw [hfr]; simp [List.lookup]
@@ -453,10 +573,10 @@ theorem applyEvents_table : ∀ (evs : List Event) (ids : List Nat) (t t' : Tabl
           have : (j == id) = false := by simp [hne]
           simp only [List.lookup, this]
           exact ht j (by simp [hj])
-        obtain ⟨h1, h2, h3⟩ := ih is _ t' hk' hnd.2 ht1 h
+        obtain ⟨h1, h2, h3, h4⟩ := ih is _ t' hk' hnd.2 ht1 h
         have hfr := applyEvents_frame es _ t' h id (by rw [hk']; simpa using hnd.1)
         simp only [List.mem_cons, reduceCtorEq, false_or, Event.res.injEq]
-        refine ⟨?_, h2, h3⟩
+        refine ⟨?_, h2, h3, h4⟩
         intro id' d' hm
         rcases hm with ⟨rfl, rfl⟩ | hm
         · rw [hfr]; simp [List.lookup]
